@@ -138,7 +138,9 @@ def r2(ctx):
             ctx.ob("R2", "TABLE", f, f"escape \\{letter}", checked and consumed == need and r_ok and last_two and len(apps) == 1,
                    f"\\{letter}: checks has_next({_c(hn[0].args[0]) if hn else None}) (required {need}), consumes {consumed} digits (required {need}), appends int(<last 2 digits>, 16)={last_two}, short input raises ValueError={r_ok}", st)
     # an ordinary character is appended as its code
-    apps_else = [c for c in fn_calls(f.node) if isinstance(c.func, ast.Attribute) and c.func.attr == "append" and c.args and src(c.args[0]) == "ord(c)"]
+    loopvars = {dotted(s2.target) for s2 in statements(f.node) if isinstance(s2, ast.For)}
+    apps_else = [c for c in fn_calls(f.node) if isinstance(c.func, ast.Attribute) and c.func.attr == "append" and c.args and isinstance(c.args[0], ast.Call) and dotted(c.args[0].func) == "ord"
+                 and c.args[0].args and dotted(c.args[0].args[0]) in loopvars]
     ctx.ob("R2", "AGREE", f, "ordinary characters", len(apps_else) == 1, "characters outside escapes are appended as ord(c)")
     it = ctx.repo.func("c2profile.StringIterator.__init__")
     ok = any("ord(c) & 255" in src(n) or "ord(c) & 0xFF" in src(n) for n in body_walk(it.node))
